@@ -423,7 +423,20 @@ func (c *Ctx) applyContract(st *State, fr *Frame, instr ssa.Instruction, ct *Con
 		if cl.Kind != "ensures" {
 			continue
 		}
-		st.assume(se2.assumeF(cl.E))
+		// clauses that speak about the callee's local variables are internal to its own proof:
+		// they cannot be evaluated (and are not assumed) at call sites
+		func() {
+			defer func() {
+				if r := recover(); r != nil {
+					if e2, ok := r.(specErr); ok && strings.HasPrefix(e2.msg, "unknown identifier ") {
+						se2.pol, se2.nested, se2.facts = 0, false, nil
+						return
+					}
+					panic(r)
+				}
+			}()
+			st.assume(se2.assumeF(cl.E))
+		}()
 	}
 	c.frameCheckCall(st, fr, instr, name, locs, star)
 	k(st, rs)
